@@ -129,6 +129,9 @@ def replay_case(item):
                         first_diff=dict(index=k, got=got[k] if k < len(got) else None, want=exp2[k] if k < len(exp2) else None))
         if x == 0 and sorted(fields) != ['a', 'b']:
             return dict(ok=False, why='target fields of concatenate differ', got=fields)
+        if x == 0 and any(sorted(r.keys()) != ['a', 'b'] for r in rows):
+            bad = next(r for r in rows if sorted(r.keys()) != ['a', 'b'])
+            return dict(ok=False, why='a concatenated row does not carry every target field (absent ones as nulls)', got=bad)
     return dict(ok=True)
 
 
